@@ -82,7 +82,17 @@ def leg_r(wd, tier, binary, verdict, flags, stub=None, limit=None):
     rng = random.Random(vlib.seed())
     total = len(paths)
     rng.shuffle(paths)
-    # (replaying every descriptor takes ~15 s: both tiers replay the full cover; `limit` is for the selftest)
+    # thorough replays every descriptor.  quick replays every descriptor with accepted parameters
+    # (all kinds x basis x input mode x fault), every "contract not confirmed yet" one, every
+    # rejected-parameter class without a fault, and a seeded quarter of the remaining
+    # rejected-parameter x early-fault combinations (`limit` is for the selftest)
+    if tier == "quick" and not limit:
+        def always(p):
+            d = p[0]["act"]["d"]
+            return d["pv"] in ("ok", "noelem") or d["fault"] == "none"
+        must = [p for p in paths if always(p)]
+        rest = [p for p in paths if not always(p)]
+        paths = must + rest[:len(rest) // 4]
     if limit and len(paths) > limit:
         # a seeded sample that still contains every (kind, fault) and every (kind, pv) combination
         keep, rest, seen = [], [], set()
